@@ -308,3 +308,34 @@ theorem call_scope_encloses_definition (fenv : Nat) (params : List String) (kwd 
   simp [enterCall]
 
 end Pangaea.C03
+
+namespace Pangaea.C03
+open Pangaea.Core
+
+/-- **A property call passes the receiver as the first argument.** When the property found on the receiver is a
+    function, the call is that function applied to the receiver followed by the arguments. -/
+theorem method_call_passes_receiver (fuel : Nat) (ps : List (String × Val)) (name : String) (args : List Val)
+    (kwargs : List (String × Val)) (env : Nat) (params : List String) (kwd : List (String × Val)) (body : List Stmt) (fenv : Nat)
+    (h : ps.lookup name = some (.func params kwd body fenv)) :
+    callProp (fuel + 1) (.obj ps) name args kwargs env = callVal fuel (.func params kwd body fenv) (.obj ps :: args) kwargs := by
+  rw [callProp]; simp [h]
+
+/-- **A receiver-less chain uses the current function's first argument** (`\\1` of the current scope). -/
+theorem anonymous_chain_receiver (fuel env : Nat) (s : St) (v : Val)
+    (h : lookupVar s.frames (s.frames.length + 1) env "\\1" = some v) :
+    evalRecv (fuel + 1) none env s = (.ok v, s) := by
+  simp [evalRecv, bindM, getVar, h]
+
+theorem anonymous_chain_without_argument (fuel env : Nat) (s : St)
+    (h : lookupVar s.frames (s.frames.length + 1) env "\\1" = none) :
+    evalRecv (fuel + 1) none env s = (.err "NameErr" "name `\\1` is not defined", s) := by
+  simp [evalRecv, bindM, getVar, h]
+
+/-- **Assignment writes the innermost scope only**, and evaluates to the assigned value. -/
+theorem assign_writes_current_scope (fuel env : Nat) (x : String) (e : Expr) (s s1 : St) (v : Val)
+    (h : evalE fuel e env s = (.ok v, s1)) :
+    evalE (fuel + 1) (.assign x e) env s
+      = (.ok v, { s1 with frames := s1.frames.modify env (fun fr => { fr with vars := setAssoc x v fr.vars }) }) := by
+  rw [evalE]; simp [bindM, h, setVar]
+
+end Pangaea.C03
